@@ -212,4 +212,41 @@ PROPS = {
             {"pkg": S, "test": "TestVerifC09", "quick": (16, 400), "thorough": (16, 20000), "timeout_q": 1500},
         ],
     },
+    "C01": {
+        "level": "exploration",
+        "claim": ("Generated topologies (2-5 peers: eBGP incl. two in one AS, iBGP non-client, RR client, second session to one "
+                  "router-id; ADD-PATH send-max 0/1/2 and receive on/off) and histories of 3-40 operations over a pool of 6 "
+                  "IPv4/IPv6 prefixes (announce / implicit replace with six attribute variants incl. ones that hit loop "
+                  "prevention / withdraw / bursts / session close and re-establishment / peer deletion / API add and delete) run "
+                  "against a real BgpServer in virtual time. After every operation, at quiescence, every established peer's "
+                  "wire view (all UPDATE bytes of its session applied in order) must equal the reference export of the current "
+                  "best path of each destination (ADD-PATH: every held path is a current exportable one, count = min(send-max, "
+                  "exportable)); routes are identified by unique community tags."),
+        "note": ("Best-path choice itself is taken from ListPath (decided by C03); interleavings are those of sequential "
+                 "operations and bursts written back to back (no yield-point hook yet); route-server clients are not in the "
+                 "topologies."),
+        "technique": "model-based property testing (rapid) of operation histories in virtual time; tagged routes + reference export function as oracle",
+        "rule": ("non-trivial when >=2 peers are configured and the history contains a withdraw, a session loss or a replacement "
+                 "after the third operation; distinct by case hash"),
+        "assumptions": ["ListPath(GLOBAL) lists the best path first"],
+        "units": [
+            {"pkg": S, "test": "TestVerifC01", "quick": (16, 150), "thorough": (16, 8000), "timeout_q": 1500},
+        ],
+    },
+    "C02": {
+        "level": "exploration",
+        "claim": ("On the same generated histories as C01, after every operation: each peer's Adj-RIB-In (ListPath ADJ_IN) equals "
+                  "the model map (prefix, path-id) -> tag of the latest un-withdrawn announcement of the current session; the "
+                  "Loc-RIB (ListPath GLOBAL) holds exactly the usable ones (own-AS / ORIGINATOR_ID loop checks) plus the local "
+                  "routes, one per (source, path-id), best flag on the first, nothing of an ended session or deleted peer; "
+                  "received/accepted counters agree."),
+        "note": ("Hash-colliding destinations need a hash hook (not added yet) and are not reached; the best-path event stream "
+                 "is not replayed yet."),
+        "technique": "model-based property testing (rapid) of operation histories in virtual time against a map model",
+        "rule": ("same histories and rule as C01; distinct by case hash"),
+        "assumptions": [],
+        "units": [
+            {"pkg": S, "test": "TestVerifC02", "quick": (16, 150), "thorough": (16, 8000), "timeout_q": 1500},
+        ],
+    },
 }
